@@ -549,9 +549,20 @@ func (e *Env) eval(t *Term) Val {
 	}
 	switch t.Op {
 	case "ld", "at", "addr", "fieldval", "indexval", "closure", "cap", "substr":
-		if t.Op == "ld" && len(t.Args) == 2 && t.Args[0].K == KSym {
+		if t.Op == "ld" && (len(t.Args) == 2 || len(t.Args) == 3) && t.Args[0].K == KSym {
 			if tab := e.Tables[t.Args[0].Sym]; tab != nil && vs[1].K == TInt && vs[1].I >= 0 && vs[1].I < int64(len(tab)) {
 				el := tab[vs[1].I]
+				if len(t.Args) == 3 {
+					if el.K != TTuple || el.S != "rec" {
+						return e.opaqueFn(t.Op, t.Ty, vs)
+					}
+					f, _ := t.Args[2].StrVal()
+					v, has := recTables[el.R][f]
+					if !has {
+						return e.opaqueFn(t.Op, t.Ty, vs)
+					}
+					el = v
+				}
 				if t.Ty == TFloat && el.K == TInt {
 					el = Val{K: TFloat, F: float64(el.I)}
 				}
